@@ -79,7 +79,7 @@ class Hist:
         t = self.tier(prop, tier)
         cfg = {
             'alphabet': weighted_choice(rng, [('plain', 5), ('digits', 3), ('keyword', 1), ('at', 1), ('long', 1)]),
-            'max_arity': rng.choice((2, 2, 3, 4)),
+            'max_arity': rng.choice((2, 2, 3, 4, 4, 9)),
             'max_inputs': rng.choice((2, 3, 4, 5, 6)),
             'uuid_order': rng.choice(('asc', 'desc', 'interleave', 'random')),
             'types': 'all' if rng.random() < 0.6 else rng.choice(('bench', 'binary', 'noconst')),
